@@ -7,6 +7,15 @@ package handshake
 //@ func encodeRemoteAddr
 //@   trusted string/IP encoding of an address; only its determinism is used
 //@   modifies nothing
+// what the encoding of a UDP address is: one prefix byte followed by EVERY byte of the IP (a token proves one address,
+// not a network)
+//@ extern (a net.Addr) String
+//@   modifies nothing
+//@ func encodeRemoteAddr#impl
+//@   props C14
+//@   ensures [udp-address-encoded-in-full] implies(typeis(remoteAddr, *net.UDPAddr) && dyn(remoteAddr, *net.UDPAddr) != nil, len(result) == 1 + len(dyn(remoteAddr, *net.UDPAddr).IP) && result[0] == 0 && forall(k, 0, len(dyn(remoteAddr, *net.UDPAddr).IP), result[1 + k] == dyn(remoteAddr, *net.UDPAddr).IP[k]))
+//@   ensures [other-addresses-carry-the-string-prefix] implies(!typeis(remoteAddr, *net.UDPAddr), len(result) >= 1 && result[0] == 1)
+//@   modifies nothing
 
 //@ func (t *Token) ValidateRemoteAddr
 //@   trusted bytes.Equal of two encodings; abstracted as the uninterpreted predicate addrmatch(token, addr)
@@ -47,6 +56,7 @@ package handshake
 //@   modifies nothing
 //@ func hkdfExpandLabel
 //@   trusted HKDF-Expand-Label (external cryptography)
+//@   ensures len(result) == length
 //@   modifies nothing
 
 // I1: no stale drop time without previous keys; I2: after a key update and before the first packet in the new phase,
@@ -248,5 +258,48 @@ package handshake
 //@   modifies nothing
 //@ func NewCryptoSetupClient
 //@   trusted constructor of the client crypto setup (wraps crypto/tls QUICConn); newClientConnection is examined only up to this call (opt cutafter), so only the arguments handed over are used
+//@   ensures result != nil
+//@   modifies nothing
+
+// Header protection keys (RFC 9001 5.4.1): hp_key = HKDF-Expand-Label(secret, "quic hp" / "quicv2 hp", "", key length of the
+// negotiated cipher suite) — 32 bytes for AES-256 and ChaCha20, not the AES block size.
+//@ func hkdfHeaderProtectionLabel
+//@   props C05
+//@   ensures [label-of-the-version] result == ite(v == protocol.Version2, "quicv2 hp", "quic hp")
+//@   modifies nothing
+//@ extern crypto/aes.NewCipher
+//@   ensures iff(result1 == nil, len(key) == 16 || len(key) == 24 || len(key) == 32)
+//@   modifies nothing
+//@ func newAESHeaderProtector
+//@   props C05
+//@   panics when suite.KeyLen != 16 && suite.KeyLen != 24 && suite.KeyLen != 32
+//@   ensures [hp-key-from-the-secret-with-the-suites-key-length] called("hkdfExpandLabel") == 1 && callarg("hkdfExpandLabel", 0, 4) == suite.KeyLen && callarg("hkdfExpandLabel", 0, 3) == hkdfLabel && samearray(callarg("hkdfExpandLabel", 0, 1), trafficSecret) && len(callarg("hkdfExpandLabel", 0, 1)) == len(trafficSecret) && len(callarg("hkdfExpandLabel", 0, 2)) == 0 && callarg("hkdfExpandLabel", 0, 0) == suite.Hash
+//@   modifies everything
+//@ func newChaChaHeaderProtector
+//@   props C05
+//@   ensures [hp-key-from-the-secret-with-the-suites-key-length] called("hkdfExpandLabel") == 1 && callarg("hkdfExpandLabel", 0, 4) == suite.KeyLen && callarg("hkdfExpandLabel", 0, 3) == hkdfLabel && samearray(callarg("hkdfExpandLabel", 0, 1), trafficSecret) && len(callarg("hkdfExpandLabel", 0, 1)) == len(trafficSecret) && len(callarg("hkdfExpandLabel", 0, 2)) == 0 && callarg("hkdfExpandLabel", 0, 0) == suite.Hash
+//@   modifies everything
+//@ func newHeaderProtector
+//@   props C05
+//@   panics when (suite.ID != 4865 && suite.ID != 4866 && suite.ID != 4867) || (suite.ID != 4867 && suite.KeyLen != 16 && suite.KeyLen != 24 && suite.KeyLen != 32)
+//@   ensures [aes-suites-get-the-aes-mask-chacha-the-chacha-mask] called("newAESHeaderProtector") == ite(suite.ID == 4867, 0, 1) && called("newChaChaHeaderProtector") == ite(suite.ID == 4867, 1, 0) && called("hkdfHeaderProtectionLabel") == 1 && callarg("hkdfHeaderProtectionLabel", 0, 0) == v
+//@   ensures [label-handed-on] implies(suite.ID != 4867, callarg("newAESHeaderProtector", 0, 3) == lastresult("hkdfHeaderProtectionLabel") && callarg("newAESHeaderProtector", 0, 2) == isLongHeader) && implies(suite.ID == 4867, callarg("newChaChaHeaderProtector", 0, 3) == lastresult("hkdfHeaderProtectionLabel") && callarg("newChaChaHeaderProtector", 0, 2) == isLongHeader)
+//@   modifies everything
+
+// Packet protection key and IV (RFC 9001 5.1, RFC 9369 3.3.2): both from the traffic secret, with the labels of the version,
+// the key of the suite's key length and a 12-byte IV. (Callers keep using the trusted "returns some AEAD" contract above: the
+// AEAD itself is built by a function-valued field of the cipher suite.)
+//@ func createAEAD#impl
+//@   props C05
+//@   ensures [key-and-iv-derivation] called("hkdfExpandLabel") == 2 && callarg("hkdfExpandLabel", 0, 3) == ite(v == protocol.Version2, "quicv2 key", "quic key") && callarg("hkdfExpandLabel", 0, 4) == suite.KeyLen && callarg("hkdfExpandLabel", 1, 3) == ite(v == protocol.Version2, "quicv2 iv", "quic iv") && callarg("hkdfExpandLabel", 1, 4) == 12
+//@   ensures [both-from-the-traffic-secret] samearray(callarg("hkdfExpandLabel", 0, 1), trafficSecret) && len(callarg("hkdfExpandLabel", 0, 1)) == len(trafficSecret) && samearray(callarg("hkdfExpandLabel", 1, 1), trafficSecret) && len(callarg("hkdfExpandLabel", 1, 1)) == len(trafficSecret) && callarg("hkdfExpandLabel", 0, 0) == suite.Hash && callarg("hkdfExpandLabel", 1, 0) == suite.Hash
+//@   modifies everything
+//@ func (s cipherSuite) IVLen
+//@   props C05
+//@   ensures result == 12
+//@   modifies nothing
+
+//@ func NewUCryptoSetupClient
+//@   trusted constructor of the uTLS client crypto setup; newUClientConnection's order clause is checked before this call, only its frame is used
 //@   ensures result != nil
 //@   modifies nothing
